@@ -134,6 +134,16 @@ func init() {
 			"partial, comparator half only: individual rules of the published orderings (semver.org section 11, PEP 440 sort key, Gem::Version) are proved as lemmas over the derived summaries of the comparators on the parsed representation; that a string is parsed into the fields the reference tool would see, Maven's ComparableVersion, NuGet's case rule, PEP 440 local segments and normalised-form acceptance are not covered",
 		},
 	}
+	propDefs["C03"] = &PropDef{
+		ID:   "C03",
+		Pkgs: []pkgRef{semver},
+		Assume: []string{
+			"partial, one stage only: how opVersionToSpan turns an operator (none, =, >, >=, <, <=, ^, ~) and a three-number version without prerelease, wildcard or extension (NPM, Cargo, Default) into a span: rank, open flags and the numbers of both ends, against the range tables of node-semver and Cargo as read from their documentation (not against the tools themselves); tokenising, partial versions and x-ranges, prerelease operands, hyphen ranges, and/or lists, Intersect/canon, the match itself, PyPI, Maven, RubyGems, NuGet and Composer are not covered",
+			"only the success branch is characterised: that a range the reference accepts is not rejected is not proved (newSpan's error branch is behind an abstracted Canon call)",
+			"∞ stands for a number above every version number of the reference (2^63-1 here); compare enters by symbol with the lemma compare.plain.nums3 proved from its body",
+			"callees under contract: (*Version).setTail, inc, all, System.MinVersion, newSpan (each verified on its own); (*Version).rebuildExtension and Canon are abstracted to their static write sets at these call sites; copy, setNum, clearPre are inlined",
+		},
+	}
 	propDefs["C09"] = &PropDef{
 		ID:   "C09",
 		Pkgs: []pkgRef{semver},
